@@ -130,8 +130,8 @@ theorem visit_eq_fold (loc : Locator) (t : Tree) (st : St) :
     obtain ⟨cds, cur⟩ := st
     simp only [visit]
     by_cases hg : isMainGuard test
-    · rw [if_pos hg, ihn]
-      cases cur <;> simp [itemsIn, topLevel, methodsOf, hg]
+    · rw [if_pos hg, iho, ihn]
+      cases cur <;> simp [itemsIn, topLevel, methodsOf, hg, insertAll_append]
     · rw [if_neg hg, ihb, iho, ihn]
       cases cur <;> simp [itemsIn, topLevel, methodsOf, hg, insertAll_append]
   | comp r body next ihb ihn =>
